@@ -55,6 +55,7 @@ def seq_histories(draw, tier):
         # the instance gets a NEW attribute dict with the same content (the "reset / copy my state" idiom): the
         # attributes - cached values and placeholders included - are what they were
         st.tuples(st.just("rebind-dict"), st.integers(0, 1)),
+        st.tuples(st.just("hash-attr"), st.integers(0, 1)),
     )
     return {"ops": [list(o) for o in draw(st.lists(op, min_size=draw(st.sampled_from([0, 5])),
                                                    max_size=40 if tier == "quick" else 60))],
@@ -240,6 +241,15 @@ def check_seq(case):
                     problem = await do_await(i, awaitable)
                     if model[i] is None:
                         in_dict[i] = True
+            elif name == "hash-attr":
+                # the attribute (placeholder or cached awaitable) goes into a set / is a dict key, as asyncio.gather
+                # and as_completed do with what they are given: that works whatever the cached VALUE is
+                try:
+                    hash(objs[arg].prop)
+                except Exception as exc:
+                    return ("attribute-not-hashable", f"step {step}: {exc!r}")
+                in_dict[arg] = True
+                problem = None
             elif name == "rebind-dict":
                 object.__setattr__(objs[arg], "__dict__", dict(vars(objs[arg])))
                 problem = None
@@ -423,7 +433,8 @@ def run_conc(case, choices=None, default="rr"):
         first = run(ctx, _get(obj))
     if first[0] != "return":
         return sched, [("unusable-after-quiescence", f"{first!r} {detail}")], flags
-    if returned and deletions[0] == 0 and len(runs) != before and case["lock"]:
+    if returned and deletions[0] == 0 and len(runs) != before:
+        # (with or without a lock: a run that returned has published its value - whatever other runs did meanwhile)
         return sched, [("value-not-cached-after-quiescence", detail)], flags
     mid = len(runs)
     second = run(ctx, _get(obj))
